@@ -257,8 +257,12 @@ func init() {
 	reg(func(r *Run, fr *frame, args []Value) Value { return r.floatFromBits(args[0].(*Term), 64) }, "math.Float64frombits")
 	reg(func(r *Run, fr *frame, args []Value) Value { return r.floatFromBits(args[0].(*Term), 32) }, "math.Float32frombits")
 	reg(func(r *Run, fr *frame, args []Value) Value {
-		n := r.concretizeInt(fr, args[0].(*Term), true)
-		return Float{v: math.Pow10(int(n))}
+		t := args[0].(*Term)
+		if !t.IsConst() {
+			// the value is only ever a float operand here; keep it opaque rather than forking 2^k ways
+			return Float{unk: true}
+		}
+		return Float{v: math.Pow10(int(signExt(t.val, t.sort)))}
 	}, "math.Pow10")
 
 	// ---- runtime / misc
